@@ -409,6 +409,84 @@ theorem bar_not_mem_padRight (w : Nat) (v : Str) (h : '|' ∉ v) : '|' ∉ padRi
   · have := (List.mem_replicate.mp h1).2
     exact absurd this (by decide)
 
+/-! ## chains from ARBITRARY starting attrs (a first call that brings user attributes) -/
+
+/-- a chain of calls whose first call is handed weights carrying the attrs `a`
+    (`none`: `weights=None`, or weights without attrs handling); `runChain` is the
+    case `a = none` -/
+def runChainFrom (a : Option Attrs) (cs : List Call) : Option Attrs :=
+  cs.foldl (fun acc c => some (attributes c acc)) a
+
+theorem runChain_eq_from (cs : List Call) : runChain cs = runChainFrom none cs := rfl
+
+theorem runChainFrom_some (a : Attrs) (cs : List Call) :
+    runChainFrom (some a) cs = some (cs.foldl (fun a c => merge a (newAttrs c)) a) := by
+  unfold runChainFrom
+  induction cs generalizing a with
+  | nil => rfl
+  | cons c r ih => simp only [List.foldl_cons, attributes]; exact ih _
+
+theorem runChainFrom_append (a : Option Attrs) (xs ys : List Call) :
+    runChainFrom a (xs ++ ys) = runChainFrom (runChainFrom a xs) ys := by
+  simp [runChainFrom, List.foldl_append]
+
+/-- the stored string of key `k` after a chain from given attrs, as a fold of
+    `stepS` (one step per call) -/
+theorem get?_runChainFrom_some (a₀ : Attrs) (cs : List Call) (k : Key) :
+    (runChainFrom (some a₀) cs).bind (fun a => get? a k) = cs.foldl (stepS k) (get? a₀ k) := by
+  rw [runChainFrom_some]
+  simp only [Option.bind_some]
+  exact get?_foldl_merge k a₀ cs
+
+/-- **a key the given attrs carry**: if its stored string is the `' | '`-join of
+    the entries `es₀` (one entry: a plain user value), then after ANY chain of
+    calls its stored string is the join of `es₀` followed by exactly one entry
+    per call, in call order (`''` for a call whose key set lacks the key) -/
+theorem stored_from_present (a₀ : Attrs) (cs : List Call) (k : Key) (es₀ : List Str)
+    (h0 : get? a₀ k = some (joinSep es₀)) (hne : es₀ ≠ []) :
+    (runChainFrom (some a₀) cs).bind (fun a => get? a k)
+      = some (joinSep (es₀ ++ cs.map (entryOf k))) := by
+  rw [get?_runChainFrom_some, h0]
+  have := foldl_stepS_map_joinSep k (some es₀) cs (fun es h => by cases h; exact hne)
+  simp only [Option.map_some] at this
+  rw [this, foldl_stepE_some]
+  rfl
+
+/-- **a key the given attrs lack**: nothing until the first call that writes it;
+    that call stores `'' | entry`, every later call appends one entry -/
+theorem stored_from_absent (a₀ : Attrs) (cs : List Call) (k : Key) (h0 : get? a₀ k = none) :
+    (runChainFrom (some a₀) cs).bind (fun a => get? a k)
+      = match cs.dropWhile (fun c => !(hasKey (newAttrs c) k)) with
+        | [] => none
+        | c :: r => some (joinSep ([] :: (c :: r).map (entryOf k))) := by
+  rw [get?_runChainFrom_some, h0]
+  have := foldl_stepS_map_joinSep k none cs (fun es h => by cases h)
+  simp only [Option.map_none] at this
+  rw [this, foldl_stepE_none]
+  cases cs.dropWhile (fun c => !(hasKey (newAttrs c) k)) <;> rfl
+
+/-- the entries a chain from `weights=None` stores under a key its first call
+    writes: one per call, in call order -/
+theorem stored_chain_present (c₀ : Call) (rest : List Call) (k : Key)
+    (hk : hasKey (newAttrs c₀) k = true) :
+    stored (c₀ :: rest) k = some (joinSep ((c₀ :: rest).map (entryOf k))) := by
+  obtain ⟨v, hv⟩ := Option.isSome_iff_exists.mp hk
+  have hE : get? (runChainE c₀ rest) k = some ((c₀ :: rest).map (entryOf k)) := by
+    rw [get?_runChainE, hv]
+    simp only [Option.map_some, foldl_stepE_some, List.map_cons, List.singleton_append]
+    simp [entryOf, hv]
+  unfold stored
+  rw [stored_eq_join, hE]
+  rfl
+
+theorem bar_not_mem_entryOf (c : Call) (k : Key) (h : ∀ v, get? c.raw k = some v → '|' ∉ v) :
+    '|' ∉ entryOf k c := by
+  cases hr : get? c.raw k with
+  | none => rw [entryOf_of_lacks c k hr]; simp
+  | some v' =>
+    rw [entryOf_of_raw c k v' hr]
+    exact bar_not_mem_padRight _ _ (h v' hr)
+
 /-! ## save/load is the identity of the model -/
 
 theorem runOps_eq_runChain (ops : List Op) : runOps ops = runChain (calls ops) := by
